@@ -137,6 +137,8 @@ def strip_abs(prog, fi, e):
 
 def argreduce(prog, fi, e, kinds):
     """if e is argmax/argmin style call (function or method form) return its array argument"""
+    while isinstance(e, ast.Call) and isinstance(e.func, ast.Name) and e.func.id == "int" and len(e.args) == 1 and not e.keywords:
+        e = e.args[0]               # int(np.argmin(..)): the index itself
     if not isinstance(e, ast.Call):
         return None
     nm = callee_name(prog, fi, e)
@@ -467,6 +469,11 @@ def const_test(e, consts):
     if isinstance(e, ast.UnaryOp) and isinstance(e.op, ast.Not):
         v = const_test(e.operand, consts)
         return _UNDEC if v is _UNDEC else (not v)
+    if isinstance(e, ast.UnaryOp) and isinstance(e.op, (ast.USub, ast.UAdd)):
+        v = const_test(e.operand, consts)
+        if v is _UNDEC or isinstance(v, bool) or not isinstance(v, (int, float)):
+            return _UNDEC
+        return -v if isinstance(e.op, ast.USub) else v
     if isinstance(e, ast.BoolOp):
         vals = [const_test(v, consts) for v in e.values]
         if isinstance(e.op, ast.And):
@@ -1127,6 +1134,10 @@ class _Fold(ast.NodeTransformer):
     def visit_Call(self, node):
         self.generic_visit(node)
         f = node.func
+        # int(np.argmin(..)) / int(len(..)): the value is an integer already
+        if isinstance(f, ast.Name) and f.id == "int" and len(node.args) == 1 and not node.keywords and isinstance(node.args[0], ast.Call) \
+                and src(node.args[0].func).split(".")[-1] in _INT_VALUED and not any(k.arg == "axis" for k in node.args[0].keywords):
+            return node.args[0]
         # np.asarray(x) / np.asanyarray(x) without dtype: the same values
         if isinstance(f, ast.Attribute) and f.attr in ("asarray", "asanyarray") and isinstance(f.value, ast.Name) and f.value.id in ("np", "numpy") \
                 and len(node.args) == 1 and not node.keywords:
@@ -3173,7 +3184,10 @@ def repeated_option_rule(prog, run, rule, quals):
                 dh, df = _param_default(r.node, p_), _param_default(fi.node, p_)
                 if df is not None and not (isinstance(dh, ast.Constant) and isinstance(df, ast.Constant) and dh.value == df.value and type(dh.value) is type(df.value)):
                     continue                # another default: another meaning, or deliberately another value
-                if any(isinstance(x, ast.Name) and x.id == p_ and isinstance(x.ctx, ast.Store) for x in ast.walk(fi.node)):
+                retyped = {id(t_) for a_ in ast.walk(fi.node) if isinstance(a_, ast.Assign) and len(a_.targets) == 1 and isinstance(a_.targets[0], ast.Name)
+                           and isinstance(a_.value, ast.Call) and isinstance(a_.value.func, ast.Name) and a_.value.func.id in ("float", "int") and len(a_.value.args) == 1
+                           and isinstance(a_.value.args[0], ast.Name) and a_.value.args[0].id == a_.targets[0].id for t_ in a_.targets}
+                if any(isinstance(x, ast.Name) and x.id == p_ and isinstance(x.ctx, ast.Store) and id(x) not in retyped for x in ast.walk(fi.node)):
                     continue
                 n += 1
                 if p_ in m:
@@ -3337,3 +3351,22 @@ def orientation_guess_rule(prog, run, rule, quals):
                    witness=src(ifn.test, 60), file=f, node=ifn)
     if not n:
         run.ob(rule, quals[0] if quals else "-", "orientation guesses", True, "no array is transposed on the strength of one of its extents")
+
+
+def rename_locals(fi, ren):
+    """fi with the local names in `ren` (old -> canonical) renamed throughout its body: rules written in terms of a quantity's usual
+    name find it by what it IS (its definition), whatever the source calls it.  Nothing is renamed when a canonical name is already in
+    use for something else."""
+    ren = {a: b for a, b in ren.items() if a != b}
+    if not ren:
+        return fi
+    used = {n.id for n in ast.walk(fi.node) if isinstance(n, ast.Name)} | {a.arg for a in ast.walk(fi.node) if isinstance(a, ast.arg)}
+    if (set(ren.values()) & used) - set(ren):
+        return fi
+
+    class _R(ast.NodeTransformer):
+        def visit_Name(self, x):
+            return ast.copy_location(ast.Name(id=ren[x.id], ctx=x.ctx), x) if x.id in ren else x
+    fi.node = ast.fix_missing_locations(_R().visit(copy.deepcopy(fi.node)))
+    return fi
+
